@@ -628,6 +628,13 @@ func TestVerifC10(t *testing.T) {
 				at := fl.at + time.Duration(j)*300*vMs
 				c.Steps = append(c.Steps, advStep{At: at, Kind: "readerr", Err: "timeout"}, advStep{At: at + 100*vMs, Kind: "rs", Src: fmt.Sprintf("fe80::d:%x", j+1)})
 			}
+		case "writemc":
+			// the failing transmission is a scheduled MULTICAST RA: the answer to a
+			// solicitation from :: at fl.at (the same rules as for a unicast answer)
+			c.UnicastOnly = false
+			c.WriteErrKind, c.WriteErrAfter, c.WriteErrMulticast = parts[1], fl.at, true
+			c.Steps = append(c.Steps, advStep{At: fl.at, Kind: "rs", Src: "::"})
+			expect = map[string]string{"nobufs": "redial", "syscall": "redial", "perm": "error", "other": "error", "op-nobufs": "redial", "op-acces": "error"}[parts[1]]
 		case "write", "writepending", "writeall":
 			c.WriteErrKind, c.WriteErrAfter = parts[1], fl.at
 			c.WriteErrAll = parts[0] == "writeall"
@@ -852,7 +859,7 @@ func TestVerifC10(t *testing.T) {
 	}
 
 	kinds := []string{"read:syscall", "read:perm", "read:other", "read:eintr", "read:emfile", "read:op-netdown", "timeouts:1", "timeouts:2", "timeouts:3", "timeouts:4", "timeouts:5", "timeouts:6",
-		"timeoutsinv:1", "timeoutsinv:3", "timeoutsinv:4", "timeoutsinv:5", "spreadtimeouts:5", "spreadtimeouts:6", "spreadtimeouts:12", "timeoutssys:2", "timeoutssys:4", "timeoutssys:5", "timeoutssys:7",
+		"timeoutsinv:1", "timeoutsinv:3", "timeoutsinv:4", "timeoutsinv:5", "spreadtimeouts:5", "spreadtimeouts:6", "spreadtimeouts:12", "timeoutssys:2", "timeoutssys:4", "timeoutssys:5", "timeoutssys:7", "writemc:nobufs", "writemc:perm", "writemc:other", "writemc:op-nobufs",
 		"linkondial", "write:nobufs", "write:perm", "write:other", "write:op-nobufs", "write:op-acces", "writepending:nobufs", "writepending:other", "writeall:nobufs", "writeall:perm", "link", "watchclose", "spacing:link", "spacing:read", "stalledpeer:x"}
 	// the same read-side faults against a Monitor task
 	mreps := r.Pick(4, 150)
